@@ -713,7 +713,7 @@ pub fn c02_process_sub() -> Sub {
         cases: |t| t.pick(32, 400),
         run: |ctx| run_proptest_cfg(ctx, "process", download_strategy(), check_download, 4),
         replay: |v| replay_case::<E2eCase>(v, check_download),
-        min_class: &[("conclusive", 0.9)],
+        min_class: &[("conclusive", 0.5)],
     }
 }
 
@@ -723,6 +723,6 @@ pub fn c19_faults_sub() -> Sub {
         cases: |t| t.pick(32, 300),
         run: |ctx| run_proptest_cfg(ctx, "faults", fault_strategy(ctx.tier), check_faults, 4),
         replay: |v| replay_case::<E2eCase>(v, check_faults),
-        min_class: &[("conclusive", 0.9)],
+        min_class: &[("conclusive", 0.5)],
     }
 }
